@@ -272,22 +272,36 @@ Qed.
 Lemma zeqb_sound a b : Z.eqb a b = true -> a = b.
 Proof. lia. Qed.
 
-Lemma raw_of_value v : simple_value_ok v = true -> try_make_number (render_raw v) = expected_raw v.
+Variable F : floatlayer.
+Hypothesis HF : Float_OK F.
+
+Lemma float_char_csv_ok c : float_char c = true -> char_csv_ok c = true.
 Proof.
-  destruct v as [|z|f|s]; cbn [simple_value_ok render_raw expected_raw]; intros Hv.
+  intros H. destruct (char_csv_ok c) eqn:E; [reflexivity|].
+  unfold char_csv_ok in E. apply negb_false_iff in E.
+  destruct c as [[] [] [] [] [] [] [] []]; vm_compute in E; try discriminate E; vm_compute in H; discriminate H.
+Qed.
+
+(* the cell read back for a written value *)
+Lemma raw_cell_is v : simple_value_ok v = true -> Cell_Is F v (try_make_number (render_raw F v)).
+Proof.
+  destruct v as [|z|f|s]; cbn [simple_value_ok render_raw Cell_Is expected_raw]; intros Hv.
   - discriminate.
   - apply try_number_int.
-  - reflexivity.
+  - cbn [try_make_number]. rewrite s2l_l2s. rewrite (fl_not_int F HF f Hv).
+    destruct (fl_rt F HF f Hv) as (c & E1 & E2). rewrite E1. exact E2.
   - cbn [value_ok] in Hv. apply andb_true_iff in Hv. destruct Hv as [Hv _]. unfold nonnumeric in Hv.
     apply andb_true_iff in Hv. destruct Hv as [_ H2].
     cbn [try_make_number]. destruct (py_int (s2l s)); [discriminate|]. destruct (py_float (s2l s)); [discriminate|].
     reflexivity.
 Qed.
 
-Lemma raw_csv_ok v : simple_value_ok v = true -> ctext_ok (render_raw v) = true.
+Lemma raw_csv_ok v : simple_value_ok v = true -> ctext_ok (render_raw F v) = true.
 Proof.
   destruct v as [|z|f|s]; cbn [simple_value_ok render_raw ctext_ok]; intros Hv; try reflexivity.
   - apply show_int_csv_ok.
+  - rewrite s2l_l2s. pose proof (fl_chars F HF f Hv) as Hc. rewrite forallb_forall in Hc |- *.
+    intros c Hin. apply float_char_csv_ok, Hc, Hin.
   - cbn [value_ok] in Hv. apply andb_true_iff in Hv. apply Hv.
 Qed.
 
@@ -314,7 +328,7 @@ Qed.
 Theorem read_write_simple dl field data :
   znodup_b (map fst data) = true -> forallb (fun kv => simple_value_ok (snd kv)) data = true ->
   no_tab field = true -> str_csv_ok field = true ->
-  exists out, read_simple V (write_simple V dl field data) = Some out /\ Simple_Spec field data out.
+  exists out, read_simple V (write_simple V F dl field data) = Some out /\ Simple_Spec F field data out.
 Proof.
   intros Hnd Hv Ht Hc. apply znodup_b_NoDup in Hnd.
   pose proof (isort_perm data) as Hp.
@@ -322,16 +336,20 @@ Proof.
   { intros kv Hin. rewrite forallb_forall in Hv. apply Hv. apply (Permutation_in _ Hp), Hin. }
   unfold write_simple, read_simple. rewrite detect_written.
   - rewrite (csv_rt V HV).
-    + set (g := fun kv : Z * value => (fst kv, expected_raw (snd kv))).
+    + set (g := fun kv : Z * value => (fst kv, try_make_number (render_raw F (snd kv)))).
       rewrite (mapM_map _ _ g).
       * eexists. split; [reflexivity|]. unfold Simple_Spec. cbn [fst snd].
         assert (Hk : NoDup (map fst (map g (isort data)))).
         { rewrite map_map. cbn [g fst]. apply (Permutation_NoDup (Permutation_sym (Permutation_map fst Hp))), Hnd. }
         rewrite (dict_of_list_nodup Z.eqb zeqb_sound) by exact Hk.
         split; [reflexivity|]. split; [exact Hk|].
-        intros id. unfold g. rewrite lookup_map_val. f_equal. apply lookup_perm; assumption.
-      * apply Forall_forall. intros kv Hin. cbn [fst snd]. rewrite s2l_l2s, py_int_show_int.
-        rewrite raw_of_value by (apply Hv', Hin). reflexivity.
+        intros id. unfold g.
+        rewrite (lookup_map_val (fun v => try_make_number (render_raw F v))).
+        rewrite (lookup_perm id data (isort data) Hnd Hp).
+        destruct (lookup Z.eqb id data) as [v|] eqn:El; cbn [option_map]; [|reflexivity].
+        eexists. split; [reflexivity|]. apply raw_cell_is.
+        apply (lookup_some_in Z.eqb zeqb_sound) in El. rewrite forallb_forall in Hv. apply (Hv _ El).
+      * apply Forall_forall. intros kv Hin. cbn [fst snd]. rewrite s2l_l2s, py_int_show_int. reflexivity.
     + cbn [forallb]. apply andb_true_iff. split.
       * change (ctext_ok (CT "cluster_id")) with true. cbn [ctext_ok andb]. rewrite andb_true_r. exact Hc.
       * rewrite forallb_forall. intros line Hl. apply in_map_iff in Hl. destruct Hl as (kv & <- & Hin).
@@ -342,4 +360,12 @@ Proof.
     unfold no_tab in Ht. apply negb_true_iff in Ht. rewrite Ht. reflexivity.
   - intros _. unfold zlen. cbn [List.length]. lia.
 Qed.
+
 End WithCsv.
+
+(* a table without rows (outside the statement: no columns): write_tsv leaves an empty file (`if not
+   data: return`), on which read_tsv's next(reader) raises StopIteration -- whatever the delimiter and
+   the other arguments.  Stated for the reference csv layer (an empty file has no rows under either
+   delimiter; Csv_OK does not speak about reading with another delimiter than the written one) *)
+Lemma read_write_no_rows_ref dl first excl n : read_tsv ref_csv (write_tsv ref_csv dl first excl n []) = None.
+Proof. destruct dl; reflexivity. Qed.
